@@ -292,6 +292,7 @@ def run(prog, run):
     _PRED_CACHE.clear()
     _CLASS_TYPE.clear()
     r0(prog, run)
+    r0b(prog, run)
     r1(prog, run, ctx)
     r2(prog, run, ctx)
     r3(prog, run)
@@ -368,6 +369,20 @@ def r0(prog, run):
         else:
             bad += 1
             run.violation(rid, 'handleIqType#paths', f.loc(), 'handleIqType%s has a path that returns true without exactly one processHandleIqResult' % f.targs[:60])
+        # the reply goes to the request's id and sender, both taken from the parsed request stanza itself
+        for i, n in f.calls('QXmpp::Private::processHandleIqResult'):
+            a = n.get('args', [])
+            if len(a) < 3:
+                continue
+            run.instance(rid)
+            tid, tfrom = f.fmt(a[1]), f.fmt(a[2])
+            if tid.endswith('QXmppStanza::id()') and tfrom.endswith('QXmppStanza::from()'):
+                run.ok(rid, f.loc(i), 'handleIqType%s: reply id = request.id(), reply to = request.from()' % f.targs[:40], nontrivial=False)
+            else:
+                bad += 1
+                run.violation(rid, 'handleIqType#reply-addressing', f.loc(i),
+                              'handleIqType%s addresses the reply with id=%s, to=%s instead of the id and sender of the request: the requester gets no reply and '
+                              'another entity gets an unsolicited one' % (f.targs[:40], tid[-50:], tfrom[-60:]))
     # processHandleIqResult: every instantiation sends or schedules exactly one reply
     pins = [f for f in prog.fns.values() if f.name == 'processHandleIqResult' and not f.is_lambda and not f.raw.get('dependent')]
     for f in pins:
@@ -384,6 +399,61 @@ def r0(prog, run):
             run.ok(rid, f.loc(), 'processHandleIqResult%s replies exactly once' % f.targs[:40], nontrivial=False)
         else:
             run.violation(rid, 'processHandleIqResult#count', f.loc(), 'processHandleIqResult%s does not reply exactly once on every path' % f.targs[:60])
+
+
+def r0b(prog, run):
+    rid = run.rule('C08.R0b', 'for every payload class served by the typed helper, the class\'s element predicate (isXIq) accepts exactly what the helper handles: '
+                              'the first child with the (tag, namespace) pairs of checkIqType - R1 relies on "helper declined => predicate false"', floor=3)
+    classes = set()
+    for f in prog.fns.values():
+        for i, n in f.calls():
+            if f.cname(n) == 'QXmpp::handleIqRequests':
+                for x in ((f.sym(n) or {}).get('targs') or '').strip('<>').split(','):
+                    x = x.strip()
+                    if x.startswith('QXmpp') and '*' not in x and 'Manager' not in x:
+                        classes.add(x)
+    if len(classes) < 3:
+        raise AnalysisBroken('C08.R0b: payload classes of handleIqRequests not found (%s)' % sorted(classes))
+
+    def disjuncts(f, nid):
+        bo = f.binop(f.skip(nid))
+        if bo and bo[0] == '||':
+            return disjuncts(f, bo[1]) + disjuncts(f, bo[2])
+        return [f.skip(nid)]
+    for t in sorted(classes):
+        preds = [f for f in prog.fns.values() if f.record == t and f.name.startswith('is') and f.name.endswith('Iq') and len(f.params) == 1 and 'QDomElement' in f.params[0]['t'] and not f.is_lambda]
+        chk = [f for f in prog.fns.values() if f.record == t and f.name == 'checkIqType']
+        if not preds or not chk:
+            continue
+        run.instance(rid)
+        want = set()
+        for _, r in chk[0].returns():
+            if 'e' not in r:
+                continue
+            txt = chk[0].fmt(r['e'], inline=False)
+            tags = re.findall(r'p0 == "([^"]+)"', txt)
+            nss = re.findall(r'p1 == (\w+)', txt)
+            want |= {(tg, ns) for tg in tags for ns in nss}
+        got = set()
+        other = []
+        for pf in preds:
+            for _, r in pf.returns():
+                if 'e' not in r:
+                    continue
+                for dj in disjuncts(pf, r['e']):
+                    n = pf.nodes[dj]
+                    if n['k'] == 'call' and pf.cname(n) == 'QXmpp::Private::isIqType' and len(n.get('args', [])) >= 3 and pf.fmt(n['args'][0]) == 'p0':
+                        got.add((pf.strval(n['args'][1]), pf.fmt(n['args'][2], inline=False)))
+                    else:
+                        other.append(pf.fmt(dj, inline=False)[:70])
+        if other:
+            run.violation(rid, '%s#predicate-not-first-child' % t, preds[0].loc(),
+                          '%s::%s decides by %s, not by the first child element the typed request helper looks at: a request whose payload is not the first child '
+                          'is declined by the helper but claimed by the manager\'s response branch, and nobody answers it' % (t, preds[0].name, other[0]))
+        elif got != want:
+            run.violation(rid, '%s#predicate-mismatch' % t, preds[0].loc(), '%s accepts %s but checkIqType accepts %s' % (preds[0].name, sorted(got), sorted(want)))
+        else:
+            run.ok(rid, preds[0].loc(), '%s::%s == first child in %s' % (t, preds[0].name, sorted(want)))
 
 
 # ------------------------------------------------------------------------------------------- R1
